@@ -172,15 +172,27 @@ def run(prop, mod, build, tier, seed, t0):
     cov.setdefault("evaluations", 0)
     cov.setdefault("distinct_nontrivial", 0)
     cov.setdefault("samples", [])
+    level = getattr(mod, "LEVEL", "proof")
+    if cov["discharged"] == 0:
+        # nothing was proved on this run (the development no longer builds against the current source):
+        # the run is not evidence at proof level
+        level = "other"
+        cov["explanation"] = ("no proof obligation was discharged on this run (the property's theorems do not "
+                              "build against the definitions regenerated from the current source); see "
+                              "obligation_list and the replay file")
     ev = {
-        "property_id": prop, "tier": tier, "seed": seed, "level": getattr(mod, "LEVEL", "proof"),
+        "property_id": prop, "tier": tier, "seed": seed, "level": level,
         "coverage": cov, "assumptions": getattr(mod, "ASSUMPTIONS", []),
         "wall_s": round(time.time() - t0, 1), "violations": n_new,
         "notes": report.get("notes", []),
     }
-    vlib.write_evidence(prop, ev)
     for ln in lines:
         print(ln)
+    sys.stdout.flush()
+    try:
+        vlib.write_evidence(prop, ev)
+    except Exception as ex:  # noqa: BLE001  (never lose the verdict because of an evidence problem)
+        print(f"[{prop}] WARNING: evidence file did not validate: {str(ex)[:300]}")
     print(f"[{prop}] tier={tier} seed={seed} obligations={cov['discharged']}/{cov['obligations']} "
           f"cases={cov.get('evaluations')} violations={n_new} known={len(known_hit)} wall={ev['wall_s']}s")
     return 1 if n_new else 0
